@@ -54,4 +54,5 @@ def oracle(H):
     return v
 
 
+SWEEP = (10, 150)
 install(globals(), ID, 4000, 50000)
